@@ -86,7 +86,7 @@ Definition lstep_events (g : graph) (n : name) (t : tid) (sh : shared) (p : pc) 
 
 (* the end of Schema: a failed call reads registered and deletes from the map; registered = nil *)
 Definition fin_events (t : tid) (res : result) : list event :=
-  match res with RErr => [ERd t LReg; EWr t LMap] | RNil | ROk _ => [] end ++ [EWr t LReg].
+  match res with RErr | RUnlinked => [ERd t LReg; EWr t LMap] | RNil | ROk _ => [] end ++ [EWr t LReg].
 
 (* the cells whose To field the caller reads when it walks the schema to depth k *)
 Fixpoint obs_cells (k : nat) (h : list cell) (c : cellid) : list cellid :=
